@@ -13,6 +13,39 @@ mod world;
 
 use std::io::Write;
 
+/// counts what the process allocates, so that the memory a covenant execution needs can be compared with its weight
+pub mod allocs {
+    use std::alloc::{GlobalAlloc, Layout, System};
+    use std::sync::atomic::{AtomicU64, Ordering};
+    pub static TOTAL: AtomicU64 = AtomicU64::new(0);
+    pub static MAX_SINGLE: AtomicU64 = AtomicU64::new(0);
+    pub struct Counting;
+    unsafe impl GlobalAlloc for Counting {
+        unsafe fn alloc(&self, l: Layout) -> *mut u8 {
+            TOTAL.fetch_add(l.size() as u64, Ordering::Relaxed);
+            MAX_SINGLE.fetch_max(l.size() as u64, Ordering::Relaxed);
+            System.alloc(l)
+        }
+        unsafe fn dealloc(&self, p: *mut u8, l: Layout) {
+            System.dealloc(p, l)
+        }
+        unsafe fn realloc(&self, p: *mut u8, l: Layout, new_size: usize) -> *mut u8 {
+            TOTAL.fetch_add(new_size.saturating_sub(l.size()) as u64, Ordering::Relaxed);
+            MAX_SINGLE.fetch_max(new_size as u64, Ordering::Relaxed);
+            System.realloc(p, l, new_size)
+        }
+    }
+    pub fn reset() {
+        TOTAL.store(0, Ordering::Relaxed);
+        MAX_SINGLE.store(0, Ordering::Relaxed);
+    }
+    pub fn read() -> (u64, u64) {
+        (TOTAL.load(Ordering::Relaxed), MAX_SINGLE.load(Ordering::Relaxed))
+    }
+}
+#[global_allocator]
+static GLOBAL: allocs::Counting = allocs::Counting;
+
 pub struct Out {
     pub ops: std::io::BufWriter<std::fs::File>,
     pub imp: std::io::BufWriter<std::fs::File>,
@@ -89,16 +122,17 @@ fn main() {
                 "feemult" => smallstreams::feemult(&mut r, count, thorough, &mut out),
                 "confirm" => smallstreams::confirm(&mut r, count, thorough, &mut out),
                 "merkle" => smallstreams::merkle(&mut r, count, thorough, &mut out),
-                "apply" | "seal" | "chain" | "mint" | "hostile" | "cov" | "stake" | "faucet" => {
+                "apply" | "seal" | "chain" | "mint" | "hostile" | "cov" | "stake" | "faucet" | "activation" => {
                     let em = match stream {
-                        "apply" => statestream::Emphasis { mutate: 300, pool_ops: 6, stake_ops: 8, mint_ops: 8, batches: 0, blocks: 2, chain_ops: false, twins: 2, epoch_edges: 0, faucets: 8 },
-                        "cov" => statestream::Emphasis { mutate: 250, pool_ops: 1, stake_ops: 1, mint_ops: 0, batches: 4, blocks: 3, chain_ops: false, twins: 6, epoch_edges: 0, faucets: 8 },
-                        "stake" => statestream::Emphasis { mutate: 100, pool_ops: 1, stake_ops: 60, mint_ops: 0, batches: 3, blocks: 3, chain_ops: false, twins: 2, epoch_edges: 6, faucets: 8 },
-                        "faucet" => statestream::Emphasis { mutate: 150, pool_ops: 2, stake_ops: 1, mint_ops: 0, batches: 3, blocks: 3, chain_ops: false, twins: 2, epoch_edges: 0, faucets: 60 },
-                        "hostile" => statestream::Emphasis { mutate: 800, pool_ops: 12, stake_ops: 6, mint_ops: 6, batches: 2, blocks: 3, chain_ops: false, twins: 2, epoch_edges: 0, faucets: 8 },
-                        "mint" => statestream::Emphasis { mutate: 60, pool_ops: 2, stake_ops: 1, mint_ops: 70, batches: 4, blocks: 3, chain_ops: false, twins: 2, epoch_edges: 0, faucets: 8 },
-                        "seal" => statestream::Emphasis { mutate: 80, pool_ops: 30, stake_ops: 2, mint_ops: 2, batches: 5, blocks: 3, chain_ops: false, twins: 2, epoch_edges: 0, faucets: 8 },
-                        _ => statestream::Emphasis { mutate: 100, pool_ops: 10, stake_ops: 6, mint_ops: 4, batches: 0, blocks: 4, chain_ops: true, twins: 2, epoch_edges: 0, faucets: 8 },
+                        "apply" => statestream::Emphasis { mutate: 300, pool_ops: 6, stake_ops: 8, mint_ops: 8, batches: 0, blocks: 2, chain_ops: false, twins: 2, epoch_edges: 0, faucets: 8, tip_edges: 0 },
+                        "cov" => statestream::Emphasis { mutate: 250, pool_ops: 1, stake_ops: 1, mint_ops: 0, batches: 4, blocks: 3, chain_ops: false, twins: 6, epoch_edges: 0, faucets: 8, tip_edges: 0 },
+                        "stake" => statestream::Emphasis { mutate: 100, pool_ops: 1, stake_ops: 60, mint_ops: 0, batches: 3, blocks: 3, chain_ops: false, twins: 2, epoch_edges: 6, faucets: 8, tip_edges: 0 },
+                        "faucet" => statestream::Emphasis { mutate: 150, pool_ops: 2, stake_ops: 1, mint_ops: 0, batches: 3, blocks: 3, chain_ops: false, twins: 2, epoch_edges: 0, faucets: 60, tip_edges: 0 },
+                        "activation" => statestream::Emphasis { mutate: 100, pool_ops: 6, stake_ops: 4, mint_ops: 2, batches: 2, blocks: 4, chain_ops: true, twins: 2, epoch_edges: 0, faucets: 30, tip_edges: 7 },
+                        "hostile" => statestream::Emphasis { mutate: 800, pool_ops: 12, stake_ops: 6, mint_ops: 6, batches: 2, blocks: 3, chain_ops: false, twins: 2, epoch_edges: 0, faucets: 8, tip_edges: 0 },
+                        "mint" => statestream::Emphasis { mutate: 60, pool_ops: 2, stake_ops: 1, mint_ops: 70, batches: 4, blocks: 3, chain_ops: false, twins: 2, epoch_edges: 0, faucets: 8, tip_edges: 0 },
+                        "seal" => statestream::Emphasis { mutate: 80, pool_ops: 30, stake_ops: 2, mint_ops: 2, batches: 5, blocks: 3, chain_ops: false, twins: 2, epoch_edges: 0, faucets: 8, tip_edges: 0 },
+                        _ => statestream::Emphasis { mutate: 100, pool_ops: 10, stake_ops: 6, mint_ops: 4, batches: 0, blocks: 4, chain_ops: true, twins: 2, epoch_edges: 0, faucets: 8, tip_edges: 0 },
                     };
                     let stats = statestream::run(&mut r, count, &em, &mut out);
                     let js: Vec<String> = stats.iter().map(|(k, v)| format!("\"{}\":{}", k, v)).collect();
